@@ -216,4 +216,68 @@ def demand : List SLayer → Bytes → Verdict
     if b.length < 28 then .unspec else
     field (slice b 14 4 == tpa) true (field (slice b 24 4 == spa) true .accept)
 
+/-! ### RFC 8200 to the letter (known finding KF-C14-5)
+
+`skipExts` above follows fragment headers whose reserved octet is zero — what a conforming peer sends.  RFC 8200 §4.5
+also says what a *receiver* does with that octet: "ignored on reception".  `skipExtsRFC` is the walk of such a receiver
+(a fragment header is 8 octets whatever the octet holds); `rfcView` rewrites a reply into the one a receiver treats it
+like (every reserved octet zeroed), which is how the run-time oracle decides replies the walk of libtins does not
+follow. -/
+
+def skipExtsRFC : Nat → UInt8 → Bytes → Option (UInt8 × Bytes)
+  | 0, cur, b => if v6Walkable cur then none else some (cur, b)
+  | fuel + 1, cur, b =>
+    if v6Walkable cur then
+      let n := if cur == 44 then 8 else ((b.getD 1 0).toNat + 1) * 8
+      if n < b.length then
+        if cur == 44 && !(b.getD 2 0 == 0 && (b.getD 3 0).toNat / 8 == 0) then none
+        else skipExtsRFC fuel (b.getD 0 0) (b.drop n)
+      else none
+    else some (cur, b)
+
+/-- the receiver's walk meets a whole fragment header whose reserved octet is not zero -/
+def fragReservedSet : Nat → UInt8 → Bytes → Bool
+  | 0, _, _ => false
+  | fuel + 1, cur, b =>
+    if v6Walkable cur then
+      let n := if cur == 44 then 8 else ((b.getD 1 0).toNat + 1) * 8
+      if n < b.length then
+        if cur == 44 && b.getD 1 0 != 0 then true
+        else if cur == 44 && !(b.getD 2 0 == 0 && (b.getD 3 0).toNat / 8 == 0) then false
+        else fragReservedSet fuel (b.getD 0 0) (b.drop n)
+      else false
+    else false
+
+/-- the chain with the reserved octet of every fragment header zeroed -/
+def zeroFragReserved : Nat → UInt8 → Bytes → Bytes
+  | 0, _, b => b
+  | fuel + 1, cur, b =>
+    if v6Walkable cur then
+      let n := if cur == 44 then 8 else ((b.getD 1 0).toNat + 1) * 8
+      if n < b.length then
+        (if cur == 44 then b.take 1 ++ (0 :: (b.take 8).drop 2) else b.take n) ++
+          zeroFragReserved fuel (b.getD 0 0) (b.drop n)
+      else b
+    else b
+
+/-- the reply as a receiver that ignores the reserved octets sees it (link layers are skipped by their sizes) -/
+def rfcView : List SLayer → Bytes → Bytes
+  | .eth _ _ :: r, b => b.take 14 ++ rfcView r (b.drop 14)
+  | .dot3 _ _ :: r, b => b.take 14 ++ rfcView r (b.drop 14)
+  | .vlan _ :: r, b => b.take 4 ++ rfcView r (b.drop 4)
+  | .loopback _ :: r, b => b.take 4 ++ rfcView r (b.drop 4)
+  | .radiotap :: r, b =>
+    let itLen := (b.getD 2 0).toNat + (b.getD 3 0).toNat * 256
+    if itLen < 8 || b.length < itLen then b else b.take itLen ++ rfcView r (b.drop itLen)
+  | .ip6 _ _ :: _, b =>
+    if b.length < 40 then b else b.take 40 ++ zeroFragReserved (b.length - 40) (b.getD 6 0) (b.drop 40)
+  | _, b => b
+
+/-- what RFC 8200 demands beyond `demand`: where `demand` has no clause only because of a reserved octet, the reply
+    is to be treated like its `rfcView` -/
+def demandRFC (r : List SLayer) (b : Bytes) : Verdict :=
+  match demand r b with
+  | .unspec => if rfcView r b != b then demand r (rfcView r b) else .unspec
+  | v => v
+
 end Tins.Matching
